@@ -56,6 +56,46 @@ class Opaque:
         return f"<{self.name}>"
 
 
+class _ModuleScope:
+    """stands in for a FuncInfo when a module-level expression is folded"""
+    def __init__(self, mi):
+        self.module = mi
+        self.cls = None
+        self.kind = "function"
+        self.qname = mi.name + ".<module>"
+        self.params = []
+        self.name = "<module>"
+        self.node = None
+        self.bound = False
+
+    def loc(self, n=None):
+        return self.module.relpath
+
+
+class _FreshId:
+    """the value of uuid.uuid1(): equal only to itself, str() of it is itself (an identifier nobody else has)"""
+    def __init__(self, n):
+        self.n = n
+
+    def __str__(self):
+        return f"<fresh id {self.n}>"
+
+    def __repr__(self):
+        return f"<fresh id {self.n}>"
+
+
+def _has_obj(v, seen=None):
+    seen = seen if seen is not None else set()
+    if id(v) in seen:
+        return False
+    seen.add(id(v))
+    if isinstance(v, dict):
+        return isinstance(v.get("__obj__"), bool) or any(_has_obj(x, seen) for x in v.values())
+    if isinstance(v, (list, tuple, set)):
+        return any(_has_obj(x, seen) for x in v)
+    return False
+
+
 class _Ret(Exception):
     def __init__(self, v):
         self.v = v
@@ -95,6 +135,21 @@ class PEval:
         a = fi.node.args
         if a.vararg or a.kwarg:
             raise PEvalUnsupported("varargs")
+        kwonly = [x.arg for x in a.kwonlyargs]
+        if len(args) > len(params):
+            raise Raised("TypeError", fi.node)  # too many positional arguments
+        for k in (kwargs or {}):
+            if k not in params and k not in kwonly:
+                raise Raised("TypeError", fi.node)  # unexpected keyword argument
+            if k in params and params.index(k) < len(args):
+                raise Raised("TypeError", fi.node)  # multiple values for one parameter
+        for p, d in zip(kwonly, a.kw_defaults):
+            if kwargs and p in kwargs:
+                env[p] = kwargs[p]
+            elif d is not None:
+                env[p] = self.eval(d, {}, fi, depth)
+            else:
+                raise PEvalUnsupported(f"missing keyword-only argument {p} for {fi.qname}")
         for i, p in enumerate(params):
             if i < len(args):
                 env[p] = args[i]
@@ -132,7 +187,24 @@ class PEval:
         elif isinstance(s, ast.AugAssign):
             cur = self.eval(s.target, env, fi, depth)
             v = self.eval(s.value, env, fi, depth)
-            self.assign(s.target, self.binop(s.op, cur, v, s), env, fi, depth)
+            if isinstance(cur, list) and isinstance(s.op, ast.Add) and not isinstance(v, Opaque):
+                # list += iterable extends the very list object (every alias sees it)
+                try:
+                    cur.extend(v)
+                except TypeError:
+                    raise Raised("TypeError", s)
+                self.assign(s.target, cur, env, fi, depth)
+            elif isinstance(cur, (set, dict)) and isinstance(s.op, ast.BitOr) and isinstance(v, type(cur)) and not (isinstance(cur, dict) and isinstance(cur.get("__obj__"), bool)):
+                cur.update(v)
+                self.assign(s.target, cur, env, fi, depth)
+            elif isinstance(cur, set) and isinstance(s.op, (ast.Sub, ast.BitAnd)) and isinstance(v, (set, frozenset)):
+                (cur.difference_update if isinstance(s.op, ast.Sub) else cur.intersection_update)(v)
+                self.assign(s.target, cur, env, fi, depth)
+            elif isinstance(cur, list) and isinstance(s.op, ast.Mult) and isinstance(v, int):
+                cur *= v
+                self.assign(s.target, cur, env, fi, depth)
+            else:
+                self.assign(s.target, self.binop(s.op, cur, v, s), env, fi, depth)
         elif isinstance(s, ast.If):
             if self.truth(self.eval(s.test, env, fi, depth), s.test):
                 self.block(s.body, env, fi, depth)
@@ -175,6 +247,21 @@ class PEval:
                 from .exc import resolve_exc_class
                 cls = resolve_exc_class(self.prog, fi.module, s.exc)
             raise Raised(cls or "Exception", s)
+        elif isinstance(s, ast.Delete):
+            for t in s.targets:
+                if isinstance(t, ast.Subscript):
+                    c = self.eval(t.value, env, fi, depth)
+                    k = self.eval(t.slice, env, fi, depth) if not isinstance(t.slice, ast.Slice) else None
+                    if isinstance(c, Opaque) or isinstance(k, Opaque) or k is None or not isinstance(c, (list, dict)):
+                        raise PEvalUnsupported("del of an opaque element")
+                    try:
+                        del c[k]
+                    except (KeyError, IndexError, TypeError) as ex:
+                        raise Raised(type(ex).__name__, s)
+                elif isinstance(t, ast.Name):
+                    env.pop(t.id, None)
+                else:
+                    raise PEvalUnsupported("del of an attribute")
         elif isinstance(s, ast.Pass):
             return
         elif isinstance(s, ast.Break):
@@ -237,7 +324,13 @@ class PEval:
         elif isinstance(t, ast.Attribute):
             base = self.eval(t.value, env, fi, depth)
             if isinstance(base, dict) and isinstance(base.get("__obj__"), bool):
-                base[t.attr] = v
+                ci_ = self.prog.classes.get(base["__class__"]) if isinstance(base.get("__class__"), str) else None
+                if ci_ is not None and t.attr in ci_.setters:
+                    self.call(ci_.setters[t.attr], [base, v], {}, depth + 1)
+                elif ci_ is not None and t.attr in ci_.methods and ci_.methods[t.attr].kind == "property":
+                    raise Raised("AttributeError", t)  # a property without a setter
+                else:
+                    base[t.attr] = v
             else:
                 raise PEvalUnsupported(f"attribute store on {type(base).__name__}")
         elif isinstance(t, (ast.Tuple, ast.List)):
@@ -328,6 +421,27 @@ class PEval:
                 return v
             if r and r[0] in ("class", "func", "module"):
                 return r
+            if r and r[0] == "const" and r[1].const_multi.get(r[2], 0) == 1 and isinstance(r[1].consts.get(r[2]), (ast.Dict, ast.List, ast.Tuple, ast.Set, ast.DictComp, ast.ListComp,
+                                                                                                                    ast.SetComp, ast.Call, ast.Subscript, ast.BinOp)):
+                # a module-level table the plain constant folder cannot read (function references as values, a comprehension over
+                # another table): fold its defining expression once, in the defining module
+                key = ("<module-expr>", r[1].name, r[2])
+                if key not in self.class_state:
+                    if depth > 40:
+                        raise PEvalUnsupported("module table nesting")
+                    stub = _ModuleScope(r[1])
+                    self.class_state[key] = None
+                    try:
+                        self.class_state[key] = self.eval(r[1].consts[r[2]], {}, stub, depth + 1)
+                    except Raised:
+                        del self.class_state[key]
+                        raise PEvalUnsupported(f"module-level table {r[2]} raises while folding")
+                    except PEvalUnsupported:
+                        del self.class_state[key]
+                        raise
+                v2 = self.class_state[key]
+                if v2 is not None:
+                    return v2
             return Opaque(e.id)
         if isinstance(e, ast.Attribute):
             r0 = self.prog.resolve_name_expr(fi.module, e) if isinstance(e.value, (ast.Name, ast.Attribute)) else None
@@ -345,13 +459,34 @@ class PEval:
             base = self.eval(e.value, env, fi, depth)
             if isinstance(base, dict) and e.attr in base and isinstance(base.get("__obj__"), bool):
                 return base[e.attr]
+            if isinstance(base, dict) and isinstance(base.get("__obj__"), bool) and isinstance(base.get("__class__"), str):
+                # an abstract instance of a repository class: properties are folded, class attributes are the shared class state
+                ci_ = self.prog.classes.get(base["__class__"])
+                m_ = self.w.lookup_method(ci_, e.attr) if ci_ is not None else None
+                if m_ is not None and m_.kind == "property":
+                    return self.call(m_, [base], {}, depth + 1)
+                if m_ is not None:
+                    return ("boundmethod", m_, base)
+                if ci_ is not None and e.attr in ci_.class_attrs:
+                    key = (ci_.qname, e.attr)
+                    if key not in self.class_state:
+                        self.class_state[key] = self.eval(ci_.class_attrs[e.attr], {}, fi, depth)
+                    return self.class_state[key]
+                raise Raised("AttributeError", e)
             if isinstance(base, dict) and isinstance(base.get("__obj__"), bool) and fi.cls is not None and e.attr in fi.cls.class_attrs:
                 key = (fi.cls.qname, e.attr)
                 if key not in self.class_state:
                     self.class_state[key] = self.eval(fi.cls.class_attrs[e.attr], {}, fi, depth)
                 return self.class_state[key]
+            if isinstance(base, Opaque) and base.name == "cls" and fi.cls is not None and fi.kind == "class" and e.attr in fi.cls.class_attrs:
+                key = (fi.cls.qname, e.attr)  # cls.store inside a classmethod: the class attribute
+                if key not in self.class_state:
+                    self.class_state[key] = self.eval(fi.cls.class_attrs[e.attr], {}, fi, depth)
+                return self.class_state[key]
             if isinstance(base, Opaque):
                 return Opaque(f"{base.name}.{e.attr}")
+            if base is None or (isinstance(base, (str, int, float, list, tuple, set, frozenset, bool)) and not hasattr(base, e.attr)):
+                raise Raised("AttributeError", e)  # None.parent, "text".children: what Python does with it
             raise PEvalUnsupported(f"attribute {norm(e)}")
         if isinstance(e, ast.Subscript):
             c = self.eval(e.value, env, fi, depth)
@@ -426,7 +561,17 @@ class PEval:
         if isinstance(e, ast.Tuple):
             return tuple(self.eval(x, env, fi, depth) for x in e.elts)
         if isinstance(e, ast.Dict):
-            return {self.eval(k, env, fi, depth): self.eval(v, env, fi, depth) for k, v in zip(e.keys, e.values)}
+            outd_ = {}
+            for k, v in zip(e.keys, e.values):
+                if k is None:
+                    # {**a, **b}
+                    m = self.eval(v, env, fi, depth)
+                    if not isinstance(m, dict) or isinstance(m.get("__obj__"), bool):
+                        raise PEvalUnsupported("** of something that is not a folded dict")
+                    outd_.update(m)
+                else:
+                    outd_[self.eval(k, env, fi, depth)] = self.eval(v, env, fi, depth)
+            return outd_
         if isinstance(e, ast.JoinedStr):
             parts = []
             for v in e.values:
@@ -464,6 +609,14 @@ class PEval:
 
     @staticmethod
     def cmp(op, a, b):
+        def _is_obj(x):
+            return isinstance(x, dict) and isinstance(x.get("__obj__"), bool)
+        if isinstance(op, (ast.Eq, ast.NotEq)) and (_is_obj(a) or _is_obj(b)):
+            # abstract instances of classes without __eq__: equality is identity
+            return (a is b) if isinstance(op, ast.Eq) else (a is not b)
+        if isinstance(op, (ast.In, ast.NotIn)) and isinstance(b, (list, tuple)) and (_is_obj(a) or any(_is_obj(x) for x in b)):
+            hit = any(x is a for x in b)
+            return hit if isinstance(op, ast.In) else not hit
         if isinstance(op, ast.Eq):
             return a == b
         if isinstance(op, ast.NotEq):
@@ -489,10 +642,14 @@ class PEval:
     def eval_call(self, e: ast.Call, env, fi, depth):
         f = e.func
         args = [self.eval(a, env, fi, depth) for a in e.args]
+        if any(k.arg is None for k in e.keywords):
+            raise PEvalUnsupported("call with **mapping")
         kwargs = {k.arg: self.eval(k.value, env, fi, depth) for k in e.keywords if k.arg}
         # builtins
         if isinstance(f, ast.Name) and f.id not in env:
             n = f.id
+            if kwargs and n in ("isinstance", "len", "str", "float", "int", "id"):
+                raise PEvalUnsupported(f"{n} with keyword arguments")
             if n == "isinstance" and len(args) == 2:
                 if isinstance(args[0], Opaque):
                     raise PEvalUnsupported("isinstance of opaque")
@@ -519,15 +676,60 @@ class PEval:
                     raise Raised("ValueError", e)
                 except TypeError:
                     raise Raised("TypeError", e)
-            if n in ("abs", "min", "max", "bool", "list", "tuple", "sorted", "sum", "any", "all", "range", "enumerate", "zip", "set", "type", "dict"):
+            if n == "id" and len(args) == 1 and not isinstance(args[0], Opaque):
+                return id(args[0])  # identity of the abstract object: equal exactly when it is the same object
+            if n in ("abs", "min", "max", "bool", "list", "tuple", "sorted", "sum", "any", "all", "range", "enumerate", "zip", "set", "type", "dict", "reversed", "frozenset",
+                     "round", "divmod", "repr", "ord", "chr"):
                 if any(isinstance(a, Opaque) for a in args):
                     raise PEvalUnsupported(f"{n} of opaque")
                 fn = {"abs": abs, "min": min, "max": max, "bool": bool, "list": list, "tuple": tuple,
                       "sorted": sorted, "sum": sum, "any": any, "all": all, "range": lambda *a: list(range(*a)),
-                      "enumerate": lambda x: list(enumerate(x)), "zip": lambda *a: list(zip(*a)), "set": set,
-                      "type": type, "dict": dict}[n]
+                      "enumerate": lambda *a, **k: list(enumerate(*a, **k)), "zip": lambda *a, **k: list(zip(*a, **k)), "set": set,
+                      "type": type, "dict": dict, "reversed": lambda x: list(reversed(x)), "frozenset": frozenset, "round": round, "divmod": divmod, "repr": repr,
+                      "ord": ord, "chr": chr}[n]
+                if n in ("repr", "type", "bool") and args and isinstance(args[0], dict) and isinstance(args[0].get("__obj__"), bool):
+                    if n == "bool":
+                        return True
+                    raise PEvalUnsupported(f"{n} of an abstract instance")
+                if any(isinstance(v, Opaque) or callable(v) or (isinstance(v, tuple) and v and v[0] in ("func", "class", "boundmethod", "lambda")) for v in kwargs.values()) \
+                        or "key" in kwargs:
+                    raise PEvalUnsupported(f"{n} with a keyword argument the folder does not model")
                 try:
-                    return fn(*args)
+                    return fn(*args, **kwargs)
+                except (TypeError, ValueError) as ex:
+                    raise Raised(type(ex).__name__, e)
+        # pure standard-library text functions on folded strings (not repository code: applied as they are)
+        if isinstance(f, (ast.Name, ast.Attribute)):
+            r = self.prog.resolve_name_expr(fi.module, f)
+            if r and r[0] == "external" and r[1] in ("xml.sax.saxutils.escape", "xml.sax.saxutils.unescape", "xml.sax.saxutils.quoteattr", "html.escape"):
+                kw = {k.arg: self.eval(k.value, env, fi, depth) for k in e.keywords if k.arg}
+                if any(isinstance(a, Opaque) for a in list(args) + list(kw.values())):
+                    raise PEvalUnsupported(f"{r[1]} of opaque")
+                import html as _html
+                import xml.sax.saxutils as _su
+                fn = {"xml.sax.saxutils.escape": _su.escape, "xml.sax.saxutils.unescape": _su.unescape, "xml.sax.saxutils.quoteattr": _su.quoteattr,
+                      "html.escape": _html.escape}[r[1]]
+                try:
+                    return fn(*args, **kw)
+                except (TypeError, AttributeError) as ex:
+                    raise Raised(type(ex).__name__, e)
+            if r and r[0] == "external" and r[1] in ("copy.copy", "uuid.uuid1", "uuid.uuid4", "copy.deepcopy", "json.dumps", "json.loads"):
+                if r[1].startswith("uuid."):
+                    self._uuid = getattr(self, "_uuid", 0) + 1
+                    return _FreshId(self._uuid)
+                if any(isinstance(a, Opaque) for a in args) or len(args) != 1:
+                    raise PEvalUnsupported(f"{r[1]} of opaque")
+                import copy as _copy
+                import json as _json
+                if r[1] == "copy.copy":
+                    return _copy.copy(args[0])  # an abstract instance is a dict of its fields: the shallow copy shares every field value
+                if _has_obj(args[0]):
+                    raise PEvalUnsupported(f"{r[1]} of an object graph")
+                if r[1] == "copy.deepcopy":
+                    return _copy.deepcopy(args[0])
+                kw = {k.arg: self.eval(k.value, env, fi, depth) for k in e.keywords if k.arg}
+                try:
+                    return _json.dumps(args[0], **kw) if r[1] == "json.dumps" else _json.loads(args[0], **kw)
                 except (TypeError, ValueError) as ex:
                     raise Raised(type(ex).__name__, e)
         # math.isnan and friends
@@ -543,24 +745,63 @@ class PEval:
                 base = self.eval(f.value, env, fi, depth)
             except PEvalUnsupported:
                 base = None
-            if isinstance(base, list) and f.attr in ("append", "extend", "index", "count", "copy", "insert"):
+            if isinstance(base, list) and f.attr in ("index", "remove", "count") and len(args) == 1 and \
+                    (any(isinstance(x, dict) and isinstance(x.get("__obj__"), bool) for x in base) or (isinstance(args[0], dict) and isinstance(args[0].get("__obj__"), bool))):
+                # abstract instances have no __eq__: membership is identity
+                hits = [i for i, x in enumerate(base) if x is args[0]]
+                if f.attr == "count":
+                    return len(hits)
+                if not hits:
+                    raise Raised("ValueError", e)
+                if f.attr == "index":
+                    return hits[0]
+                del base[hits[0]]
+                return None
+            if isinstance(base, list) and f.attr in ("append", "extend", "index", "count", "copy", "insert", "remove", "pop", "clear", "reverse", "sort"):
+                if any(isinstance(a, Opaque) for a in args):
+                    raise PEvalUnsupported(f"list.{f.attr} of opaque")
                 try:
                     return getattr(base, f.attr)(*args)
                 except ValueError:
                     raise Raised("ValueError", e)
-            if isinstance(base, dict) and f.attr in ("get", "keys", "values", "items", "copy"):
+                except IndexError:
+                    raise Raised("IndexError", e)
+                except TypeError:
+                    raise Raised("TypeError", e)
+            if isinstance(base, dict) and f.attr in ("get", "keys", "values", "items", "copy") and not isinstance(base.get("__obj__"), bool):
                 v = getattr(base, f.attr)(*args)
                 if f.attr in ("keys", "items"):
                     return _SetLikeList(v)
                 return list(v) if f.attr == "values" else v
-            if isinstance(base, dict) and f.attr in ("update", "pop", "setdefault") and not isinstance(base.get("__obj__"), bool):
+            if isinstance(base, dict) and f.attr in ("update", "pop", "setdefault", "popitem", "clear") and not isinstance(base.get("__obj__"), bool):
                 try:
                     return getattr(base, f.attr)(*args)
                 except KeyError:
                     raise Raised("KeyError", e)
-            if isinstance(base, str) and f.attr in ("split", "strip", "lower", "upper", "startswith", "endswith", "replace", "join"):
-                return getattr(base, f.attr)(*args)
-            if isinstance(base, Opaque):
+            if isinstance(base, (set, frozenset)) and f.attr in ("add", "discard", "remove", "update", "copy", "union", "intersection", "difference", "issubset",
+                                                                  "issuperset", "isdisjoint") and (isinstance(base, set) or f.attr not in ("add", "discard", "remove", "update")):
+                if any(isinstance(a, Opaque) for a in args):
+                    raise PEvalUnsupported(f"set.{f.attr} of opaque")
+                try:
+                    return getattr(base, f.attr)(*args)
+                except KeyError:
+                    raise Raised("KeyError", e)
+                except TypeError:
+                    raise Raised("TypeError", e)
+            if isinstance(base, str) and f.attr in ("split", "strip", "lower", "upper", "startswith", "endswith", "replace", "join", "lstrip", "rstrip", "format",
+                                                    "find", "rfind", "index", "count", "isspace", "isdigit", "isalpha", "splitlines", "partition", "rpartition",
+                                                    "title", "capitalize", "encode", "zfill", "rsplit", "casefold", "isalnum", "removeprefix", "removesuffix"):
+                kw = {k.arg: self.eval(k.value, env, fi, depth) for k in e.keywords if k.arg}
+                if any(isinstance(a, Opaque) for a in list(args) + list(kw.values())):
+                    raise PEvalUnsupported(f"str.{f.attr} of opaque")
+                if f.attr == "join" and args and not isinstance(args[0], str):
+                    args = [list(args[0])]
+                try:
+                    return getattr(base, f.attr)(*args, **kw)
+                except (ValueError, TypeError, KeyError, IndexError, UnicodeError) as ex:
+                    raise Raised(type(ex).__name__, e)
+            if isinstance(base, Opaque) and not (isinstance(f.value, ast.Name) and f.value.id in ("self", "cls") and fi.cls is not None
+                                                 and self.w.lookup_method(fi.cls, f.attr) is not None):
                 if f.attr in ("debug", "info", "warning", "error"):
                     return None
                 raise PEvalUnsupported(f"call on opaque {norm(f)}")
@@ -568,6 +809,17 @@ class PEval:
         r = self.prog.resolve_name_expr(fi.module, f) if isinstance(f, (ast.Name, ast.Attribute)) else None
         target = None
         recv = []
+        if r is None and (not isinstance(f, (ast.Name, ast.Attribute)) or (isinstance(f, ast.Name) and f.id in env)):
+            # the callee is a value: an entry of a dispatch table, a local bound to a function / bound method / class
+            try:
+                fv = self.eval(f, env, fi, depth)
+            except PEvalUnsupported:
+                fv = None
+            if isinstance(fv, tuple) and len(fv) >= 2 and fv[0] in ("func", "class"):
+                r = fv
+            elif isinstance(fv, tuple) and len(fv) == 3 and fv[0] == "boundmethod":
+                target = fv[1]
+                recv = [fv[2]] if fv[1].kind == "method" else ([Opaque("cls")] if fv[1].kind == "class" else [])
         if r and r[0] == "func":
             target = r[1]
         elif isinstance(f, ast.Attribute) and isinstance(f.value, ast.Name) and f.value.id in ("self", "cls") and fi.cls is not None:
@@ -575,6 +827,64 @@ class PEval:
             if m is not None:
                 target = m
                 recv = [env.get(f.value.id, Opaque(f.value.id))] if m.kind != "static" else []
+        if target is None and isinstance(f, ast.Attribute):
+            # a method of a repository class called on an abstract object (a dict standing for a Node / Rule): the receiver's class
+            # comes from the receiver typing of the function being folded
+            try:
+                base_obj = self.eval(f.value, env, fi, depth)
+            except PEvalUnsupported:
+                base_obj = None
+            if isinstance(base_obj, dict) and isinstance(base_obj.get("__obj__"), bool):
+                try:
+                    rt = self.w.types(fi).type_of(f.value)
+                except Exception:
+                    rt = None
+                ci = None
+                if isinstance(base_obj.get("__class__"), str):
+                    ci = self.prog.classes.get(base_obj["__class__"])
+                elif rt in ("Node", "OptNode"):
+                    ci = self.w.nm.ci
+                elif rt == "Rule":
+                    ci = self.prog.classes.get("metapype.eml.rule.Rule")
+                elif isinstance(rt, str) and rt.startswith(("inst:", "class:")):
+                    ci = self.prog.classes.get(rt.split(":", 1)[1])
+                m = self.w.lookup_method(ci, f.attr) if ci is not None else None
+                if m is not None and m.kind in ("method", "static", "class"):
+                    target = m
+                    recv = [base_obj] if m.kind == "method" else ([Opaque("cls")] if m.kind == "class" else [])
+        if target is None and r and r[0] == "class":
+            # instantiation of a repository class: a fresh abstract instance run through the constructor
+            ci_ = r[1]
+            obj = {"__obj__": True, "__class__": ci_.qname}
+            init = self.w.lookup_method(ci_, "__init__")
+            if init is not None:
+                self.call(init, [obj] + args, kwargs, depth + 1)
+                return obj
+            bases = [norm(b) for b in ci_.node.bases]
+            decos = [norm(d_.func if isinstance(d_, ast.Call) else d_) for d_ in ci_.node.decorator_list]
+            record = any(b.split(".")[-1] == "NamedTuple" for b in bases) or any(d_.split(".")[-1] == "dataclass" for d_ in decos)
+            if record:
+                # a record class: the annotated fields in order, with their defaults
+                fields = [(st.target.id, st.value) for st in ci_.node.body if isinstance(st, ast.AnnAssign) and isinstance(st.target, ast.Name)]
+                if len(args) > len(fields) or any(k not in dict(fields) for k in kwargs):
+                    raise Raised("TypeError", e)
+                for i, (fname, dflt) in enumerate(fields):
+                    if i < len(args):
+                        if fname in kwargs:
+                            raise Raised("TypeError", e)
+                        obj[fname] = args[i]
+                    elif fname in kwargs:
+                        obj[fname] = kwargs[fname]
+                    elif dflt is not None:
+                        obj[fname] = self.eval(dflt, {}, fi, depth)
+                    else:
+                        raise Raised("TypeError", e)
+                return obj
+            if bases and bases != ["object"]:
+                raise PEvalUnsupported(f"instantiation of {ci_.name}, whose constructor is inherited from {', '.join(bases)}")
+            if args or kwargs:
+                raise Raised("TypeError", e)
+            return obj
         if target is not None and target.qname in self.stubs:
             return self.stubs[target.qname]
         if target is not None:
